@@ -83,8 +83,99 @@ def vector_case(draw, formats, tier, max_sources=None, solid_only=False, allow_g
     return {"cfg": cfg, "sources": sources}
 
 
+@st.composite
+def grid_case(draw, formats, tier, tolerances=None):
+    """Artwork on an integer grid with an em box that maps the viewBox 1:1 (or by a small integer factor): rectangles, triangles
+    and bars that are axis-aligned stretches / mirrors / shifts of one another. This is where the reuse transform has a scale of
+    exactly 1 on one axis, an integral centre, an integral translation - the specialised PaintScale*/PaintTranslate encodings -
+    which free-floating coordinates essentially never produce."""
+    k = draw(st.sampled_from([1, 1, 2, 10]))
+    vbs = draw(st.sampled_from([100, 100, 128, 1000]))
+    desc = -draw(st.sampled_from([0, 0, 20 * k, 25 * k]))
+    asc = vbs * k + desc
+    cfg = {"upem": draw(st.sampled_from([vbs * k, 1000, 1024])), "ascender": asc, "descender": desc, "width": draw(st.sampled_from([0, vbs * k, vbs * k + 50])), "linegap": 0,
+           "color_format": draw(st.sampled_from(list(formats))), "transform": [1, 0, 0, 1, 0, 0], "reuse_tolerance": draw(st.sampled_from(tolerances or [0.1, 0.1, 0.5])),
+           "clipbox_quantization": draw(st.sampled_from([None, 1, 10])), "keep_glyph_names": draw(st.booleans()), "pretty_print": False}
+    u = vbs // 20
+    base_kind = draw(st.sampled_from(["rect", "tri", "lshape"]))
+    bw, bh = draw(st.integers(2, 5)) * u, draw(st.integers(2, 5)) * u
+
+    def base(x, y, w, h, mx=False, my=False):
+        if base_kind == "rect":
+            pts = [(0, 0), (w, 0), (w, h), (0, h)]
+        elif base_kind == "tri":
+            pts = [(0, 0), (w, 0), (0, h)]
+        else:
+            pts = [(0, 0), (w, 0), (w, h // 2), (w // 2, h // 2), (w // 2, h), (0, h)]
+        out = []
+        for px, py in pts:
+            px = w - px if mx else px
+            py = h - py if my else py
+            out.append((x + px, y + py))
+        return [["M", float(out[0][0]), float(out[0][1])]] + [["L", float(a), float(b)] for a, b in out[1:]] + [["Z"]]
+
+    n = draw(st.integers(1, 4))
+    palette = {}
+    sources = []
+    for i in range(n):
+        nodes = []
+        for _ in range(draw(st.integers(1, 4))):
+            kind = draw(st.sampled_from(["same", "shift", "stretch_x", "stretch_y", "mirror_x", "mirror_y", "stretch_both"]))
+            w, h = bw, bh
+            if kind in ("stretch_x", "stretch_both"):
+                w = draw(st.sampled_from([bw // 2 or 1, bw * 2, bw * 3 // 2 or 1]))
+            if kind in ("stretch_y", "stretch_both"):
+                h = draw(st.sampled_from([bh // 2 or 1, bh * 2, bh * 3 // 2 or 1]))
+            x, y = draw(st.integers(0, 14)) * u, draw(st.integers(0, 14)) * u
+            cmds = base(x, y, w, h, kind == "mirror_x", kind == "mirror_y")
+            from ..gen_svg import cmds_bbox as _bb
+
+            nodes.append({"t": "p", "d": cmds, "fill": draw(paint_grid(_bb(cmds))), "op": 1.0, "tag": "lib0:grid_" + kind})
+        sources.append({"model": {"vb": [0.0, 0.0, float(vbs), float(vbs)], "nodes": nodes}, "cps": [0xE000 + i]})
+    return {"cfg": cfg, "sources": sources}
+
+
+@st.composite
+def paint_grid(draw, bbox):
+    from ..gen_svg import gradient_paint
+
+    if draw(st.sampled_from([True, True, False])):
+        return {"k": "solid", "c": "#%06x" % draw(st.integers(0, 0xFFFFFF))}
+    return draw(gradient_paint({}, bbox))
+
+
+@st.composite
+def prefix_pair_case(draw, formats, tier):
+    """Two glyphs whose names are in a prefix relation (U+1F44D and U+1F44D U+1F3FB: g_1f44d / g_1f44d_1f3fb), the longer one
+    first in the input, sharing one shape that nobody else uses - plus unrelated glyphs. Name-based reasoning about which glyph
+    owns a shape is exercised here."""
+    from ..gen_svg import placement, transform_cmds, unit_shape, cmds_bbox
+
+    case = draw(vector_case(formats, tier, max_sources=3))
+    base = draw(st.sampled_from([[0x1F44D], [0x41], [0x1F1E6]]))
+    ext = base + draw(st.sampled_from([[0x1F3FB], [0x200D, 0x1F525], [0xFE0F]]))
+    vb = case["sources"][0]["model"]["vb"]
+    unit = draw(unit_shape(("polygon", "cubic", "quad")))
+    size = draw(st.floats(0.08, 0.2)) * min(vb[2], vb[3])
+    pair = []
+    for cps in (ext, base):
+        _, m = draw(placement(vb, "translate", size=size))
+        cmds = transform_cmds(unit, m)
+        fill = {"k": "solid", "c": "#%06x" % draw(st.integers(0, 0xFFFFFF))} if draw(st.booleans()) else draw(paint_grid(cmds_bbox(cmds)))
+        nodes = [{"t": "p", "d": cmds, "fill": fill, "op": 1.0, "tag": "lib9:translate"}]
+        if draw(st.booleans()):
+            other = draw(source_model({}, None, vb=vb, max_shapes=2, allow_groups=False))
+            nodes = nodes + other["nodes"] if draw(st.booleans()) else other["nodes"] + nodes
+        pair.append({"model": {"vb": vb, "nodes": nodes}, "cps": cps})
+    used = {tuple(s["cps"]) for s in pair}
+    rest = [s for s in case["sources"] if tuple(s["cps"]) not in used]
+    k = draw(st.integers(0, len(rest)))
+    case["sources"] = rest[:k] + pair + rest[k:]
+    return case
+
+
 def cases(tier):
-    return vector_case(FORMATS, tier)
+    return st.one_of(vector_case(FORMATS, tier), vector_case(FORMATS, tier), vector_case(FORMATS, tier), vector_case(FORMATS, tier), grid_case(FORMATS, tier), prefix_pair_case(FORMATS, tier))
 
 
 def shrink(case):
